@@ -38,7 +38,7 @@ EXPECTED_PROBES = {
     "quick": ["cut_frame_boundary", "cut_ubx_length", "cut_ubx_checksum", "cut_nmea_crlf", "cut_rtcm_crc", "cut_rtcm_hdr", "clean_wires", "dirty_wires", "validate_0", "big_frame_wires"],
     "thorough": ["cut_frame_boundary", "cut_ubx_length", "cut_ubx_checksum", "cut_nmea_crlf", "cut_rtcm_crc", "clean_wires", "dirty_wires", "validate_0", "sampled_long_wires"],
 }
-VARIANTS = ("file", "close", "timeout", "pipe")
+VARIANTS = ("file", "close", "timeout", "pipe", "bytesio")
 
 
 def generate(seed: int, tier: str = "quick") -> dict:
@@ -110,6 +110,8 @@ def _transport(scn, variant, cut):
         return {"kind": "file", "cut": cut}
     if variant == "pipe":
         return {"kind": "pipe", "cut": cut}
+    if variant == "bytesio":
+        return {"kind": "bytesio", "cut": cut}
     tr = dict(scn["socket"])
     tr["end"] = variant
     tr["cut"] = cut
